@@ -43,7 +43,7 @@ CLAIMED = {
                 "size, no residue of the dropped prime enters the arithmetic modulo another prime unreduced (it is reduced "
                 "under that prime, copied under a comparison of the two moduli, or operated on under its own prime), and "
                 "every in-place operation of src/util/rns.rs on residue slot s uses the precomputed operand, modulus and "
-                "NTT table of prime s (slot and index expressions compared as symbolic polynomials). R-SHAPE(baselen): the number of primes handed to the BEHZ base B equals the counter of the sizing rule (symbolic length of the prime list).",
+                "NTT table of prime s (slot and index expressions compared as symbolic polynomials). R-SHAPE(baselen): the number of primes handed to the BEHZ base B equals the counter of the sizing rule (symbolic length of the prime list). R-RESDOM(half): every centring threshold / rounding offset defined as a shifted modulus value in the RNS tool is exactly half of it.",
         "note": _TB + "Not decided: every integer specification itself (CRT bijectivity, conversion error bounds, "
                 "Montgomery / floor / Shenoy-Kumaresan exactness, round-to-nearest, value modulo t, scale-and-round) — "
                 "value-level facts outside static shape analysis; the BEHZ converters iterate with zip adaptors and "
@@ -56,7 +56,7 @@ CLAIMED = {
                 "util::uintsmallmod and util::number_theory: every non-constant output depends (data or control) on "
                 "the contents of every value operand at every normal return, in/out operands are not killed before "
                 "they are read, and no out-parameter is read before it is written. An output that ignores an operand "
-                "on a path whose condition does not fix that operand cannot equal the named operation. Also: no in-place word loop reads a position an earlier iteration of the same loop has overwritten (store/load index polynomials and direction of travel), and no left shift is performed in a narrower integer type than its cast target. Every operand of add_u64_mod / sub_u64_mod / negate_u64_mod is a residue or a residue-buffer element (R-RESIDUE: provenance followed through lets, `if` values and, for parameters, every call site in the crate); a quotient, plain arithmetic or a float cast as operand is refused. Sinks also include MultiplyU64ModOperand::new (operand below the modulus) and parameters that a *_mod primitive returns unchanged on some path (derived: exponentiate_u64_mod).",
+                "on a path whose condition does not fix that operand cannot equal the named operation. Also: no in-place word loop reads a position an earlier iteration of the same loop has overwritten (store/load index polynomials and direction of travel), and no left shift is performed in a narrower integer type than its cast target. Every operand of add_u64_mod / sub_u64_mod / negate_u64_mod is a residue or a residue-buffer element (R-RESIDUE: provenance followed through lets, `if` values and, for parameters, every call site in the crate); a quotient, plain arithmetic or a float cast as operand is refused. Sinks also include MultiplyU64ModOperand::new (operand below the modulus) and parameters that a *_mod primitive returns unchanged on some path (derived: exponentiate_u64_mod). R-DEFFORM(quotient): the precomputed quotient of a multiplication operand is assigned from an exact 128-by-64 division, not assembled from the rounded Barrett ratio.",
         "note": _TB + "Not decided: exactness itself (Barrett estimates, carries, quotient digits) — a solver or "
                 "enumeration question, which is a different technique family. Callees are modelled by weak updates "
                 "with a short table of strong kills; loops are assumed to run at least once for the written-before-read clause.",
@@ -81,7 +81,7 @@ CLAIMED = {
                 "the same index-map field with the loop variable as index; the tail beyond the input is zero-filled "
                 "through the same map; encode ends with the inverse and decode begins with the forward non-lazy "
                 "negacyclic transform of the same tables; coefficient encoding reduces modulo t; and every index "
-                "guarded by a comparison with the operand length (Galois permutation) is implied in-bounds. Also: GaloisTool::apply stores to its out-buffer for every index of the ring degree. The rotation-step decomposition (naf) covers negative steps: no `v > 0` halving loop over a signed parameter that was never made non-negative (R-CONTRA(signloop)).",
+                "guarded by a comparison with the operand length (Galois permutation) is implied in-bounds. Also: GaloisTool::apply stores to its out-buffer for every index of the ring degree. The rotation-step decomposition (naf) covers negative steps: no `v > 0` halving loop over a signed parameter that was never made non-negative (R-CONTRA(signloop)). R-PAIR(generator): the multipliers of the step-to-element walk are GALOIS_GENERATOR or a constant that is its inverse modulo 2 * HE_POLY_MOD_DEGREE_MAX (evaluated from the constant definitions).",
         "note": _TB + "Not decided: that batching is a ring isomorphism, the slot order, the rotation correspondence "
                 "(facts about roots of unity and the index map's contents).",
         "technique": "structural pair agreement on typed HIR (scatter/gather, transform pairs) + guard/use contradiction + iteration-space coverage of the out-buffer",
@@ -117,7 +117,7 @@ CLAIMED = {
                 "formats, containers and RNS-plaintext wrappers) and per scheme projection: the writer's and the reader's "
                 "wire grammars are equal as trees (typed leaves in order, loop nesting, conditionals); the size function's "
                 "fixed byte count equals the writer's per conditional branch and has a variable term wherever the writer "
-                "loops; readers of possibly seed-compressed objects expand the seed before returning. The size function is evaluated as a symbolic sum (lets, +=, loops, conditionals, fold) and private helpers are expanded in place on all three sides. R-SLOTS: a position-addressed key table (Vec<Vec<PublicKey>>, premise re-read from the code) is rebuilt only through position-preserving iterator adaptors.",
+                "loops; readers of possibly seed-compressed objects expand the seed before returning. The size function is evaluated as a symbolic sum (lets, +=, loops, conditionals, fold) and private helpers are expanded in place on all three sides. R-SLOTS: a position-addressed key table (Vec<Vec<PublicKey>>, premise re-read from the code) is rebuilt only through position-preserving iterator adaptors. R-WIRE(width): writer, reader and size function of a group take get_u64_limit of the same quantities (name-free signatures).",
         "note": _TB + "Not decided: equality of restored objects as values, numerical loop bounds, the closed-form "
                 "variable part of the size functions, reconstruction in an independently built context.",
         "technique": "wire-grammar extraction from typed HIR with scheme projection; tree comparison of writer/reader/size + symbolic size sums",
@@ -182,7 +182,7 @@ CLAIMED = {
                 "apply_galois_inplace show that, on both representation arms, the key switch receives G(c1) while "
                 "poly(0) holds G(c0) and poly(1) is zero; rotate_internal applies the element whose key it tested and "
                 "composes NAF components on the same ciphertext and key set; conjugation uses step 0; the Galois "
-                "permutation's length-guarded index is implied in-bounds by its guard. Also: every stage touching an RNS slot of the key-switch scratch product uses the same prime index; no sign test is applied to a value that can only be an absolute value (rotation-step decomposition). A halving digit loop guarded by `v > 0` over a signed parameter is entered only after the value was made non-negative or negative values were refused (R-CONTRA(signloop)). R-CONTRA(onesided): an equality test on a signed NAF digit against a non-negative bound goes through the digit's absolute value.",
+                "permutation's length-guarded index is implied in-bounds by its guard. Also: every stage touching an RNS slot of the key-switch scratch product uses the same prime index; no sign test is applied to a value that can only be an absolute value (rotation-step decomposition). A halving digit loop guarded by `v > 0` over a signed parameter is entered only after the value was made non-negative or negative values were refused (R-CONTRA(signloop)). R-CONTRA(onesided): an equality test on a signed NAF digit against a non-negative bound goes through the digit's absolute value. R-PAIR(generator) as under C11.",
         "note": _TB + "Not decided: that X -> X^g permutes slots as documented, generator/NAF arithmetic, key-switch "
                 "noise, plaintext preservation under the new key.",
         "technique": "symbolic reaching-definitions over structured HIR + structural pair agreement + guard/use contradiction + slot/prime index unification + reaching-definition sign contradiction",
@@ -205,7 +205,7 @@ CLAIMED = {
         "text": "Decides the refusal clause for invalid / seed-compressed operands: for all public operations of "
                 "Evaluator, Encryptor, Decryptor and the decoders, every Ciphertext/Plaintext operand passes a "
                 "validity guard on every path before its first write or first arithmetic use (pre-effect dominance, "
-                "interprocedural value-identity tracking through clones and the in-place/destination/returning forms). Also: the validity predicates scan every residue (through file-local helpers) and refuse a BGV correction factor of 0 or >= t.",
+                "interprocedural value-identity tracking through clones and the in-place/destination/returning forms). Also: the validity predicates scan every residue (through file-local helpers) and refuse a BGV correction factor of 0 or >= t. R-GUARD(keys): the routine that multiplies key-switching key material into a ciphertext validates the data of every key of the selected vector in a refusing branch.",
         "note": _TB + "Not decided: bit-identity of the three API forms as values; validity of returned objects as a "
                 "value property. Out-parameters are recognised by the public naming contract (destination/result).",
         "technique": "guard-dominance dataflow over typed HIR with callee summaries (refusing branches, value identity) + bound-form check",
